@@ -443,6 +443,9 @@ def b_getattr(it, args, kw):
     from .interp import PyExc
 
     obj, name = args[0], args[1]
+    if (isinstance(name, VObj) and getattr(name.cls, "is_enum", False) and isinstance(name.fields.get("value"), str)
+            and any(getattr(b, "id", None) == "str" for b in getattr(getattr(name.cls, "node", None), "bases", []))):
+        name = name.fields["value"]  # a member of a `class K(str, Enum)` IS its string value
     if not isinstance(name, str):
         raise OutOfSubset("getattr with symbolic name")
     if len(args) > 2:
